@@ -125,12 +125,16 @@ type EmbItem struct {
 	ID   string
 	Note string
 }
+type EmbColor string
+type EmbCelsius float64
 type EmbDoc struct {
 	EmbMeta
 	*EmbAudit
-	Title string
-	Items []EmbItem
-	PItem *EmbItem
+	Title  string
+	Items  []EmbItem
+	PItem  *EmbItem
+	Colors []EmbColor // typed slices whose ELEMENT type is a named string / number type
+	Temps  []EmbCelsius
 }
 
 func embeddedCase(g *gen) (doc interface{}, generic interface{}, exprs []typedExpr) {
@@ -165,6 +169,13 @@ func embeddedCase(g *gen) (doc interface{}, generic interface{}, exprs []typedEx
 			"[Author, Author, Owner, Owner]", "Items[*].Author | [Author, @]"} {
 			exprs = append(exprs, typedExpr{typed: e, generic: e, cmp: true})
 		}
+	}
+	d.Colors = []EmbColor{"red", EmbColor(g.r.pick([]string{"blue", "", "é"}))}[:g.r.intn(3)]
+	d.Temps = []EmbCelsius{1.5, EmbCelsius(g.r.intn(5))}[:g.r.intn(3)]
+	// built-ins on slices of named element types: whatever they answer, they do not panic
+	for _, e := range []string{"join(', ', Colors)", "avg(Temps)", "sum(Temps)", "sort(Colors)", "max(Temps)", "min(Colors)", "reverse(Colors)", "contains(Colors, 'red')", "length(Colors)", "sort_by(Colors, &@)",
+		"max_by(Temps, &@)", "map(&@, Colors)", "to_string(Colors)", "Colors[0]", "Temps[?@ > `1`]", "[Colors, Temps][]"} {
+		exprs = append(exprs, typedExpr{typed: e, generic: e})
 	}
 	// naming the embedded struct itself (`EmbMeta.Owner`) finds it in Go (FieldByName) but not in the JSON form, where
 	// its fields are promoted and the struct has no key of its own: outside the property (which speaks of the field
